@@ -64,6 +64,7 @@ CHECKS = {
         "jobs": [
             job("total", "c16", ["TestC16Total"], 20000, 400000, 1, 6, pending=True),
             job("local", "c16", ["TestC16Local"], 6000, 60000, 2, 10),
+            job("concurrent", "c16", ["TestC16Concurrent"], 150, 3000, 2, 6, race=True, pending=True),
             job("fuzz", "c16", ["FuzzC16Parse"], 1, 1, 1, 1, fuzz={"target": "FuzzC16Parse", "convert": "TestC16FromFuzzFile", "time": {"quick": 0, "thorough": 240}}),
         ],
     },
@@ -382,7 +383,7 @@ CHECKS = {
         "level": "exploration",
         "tools": ["lockprobe"],
         "manifest": {
-            "technique": "property-based differential testing of the database/sql driver against the native API, under the race detector: rapid-generated SQLite-written databases x generated SELECT statements (`*` anywhere in the list, column lists with rowid spellings and duplicates, unknown table/column, non-SELECT and malformed text) x consumption plans (read all, Close after k rows, cancel after k rows, cancel from another goroutine after a generated number of scheduler yields, a page overwritten with 0xFF or the file truncated before the scan, a prepared statement executed twice, optionally with an ALTER TABLE ADD/RENAME/DROP COLUMN by SQLite between the executions, two result sets open at once on one transaction / sql.Conn)",
+            "technique": "property-based differential testing of the database/sql driver against the native API, under the race detector: rapid-generated SQLite-written databases x generated SELECT statements (`*` anywhere in the list, column lists with rowid spellings and duplicates, unknown table/column, non-SELECT and malformed text) x consumption plans (read all, Close after k rows, cancel after k rows, cancel from another goroutine after a generated number of scheduler yields, a page overwritten with 0xFF or the file truncated before the scan, a prepared statement executed twice, optionally with an ALTER TABLE ADD/RENAME/DROP COLUMN by SQLite between the executions, two result sets open at once on one transaction / sql.Conn, a prepared statement executed while SQLite has the file in WAL mode and again after it switched back)",
             "level_text": "Generated (database, query, plan) triples; oracle: rows equal the native Select with `*` expanded to Columns() in definition order; whenever the native call fails an error surfaces through Query, Scan or rows.Err (a short result with a nil error is the violation); after Close/cancel rows.Close returns, no producer goroutine remains (stack dump, polled up to 5 s) and an out-of-process probe sees no lock of ours. Built with -race. Schedules of the cancel/producer race are sampled by the Go scheduler, not enumerated.",
             "level_note": "Corruption is applied to the file before the query (pages other than the first), so 'mid-scan' means pages the scan reaches later. Column names are compared case-insensitively.",
         },
@@ -390,7 +391,7 @@ CHECKS = {
                  "(a plan other than 'all', a bad query, or rows). Distinct = fingerprint of the spec."),
         "assumptions": ["system libsqlite3 (3.40.1) writes the databases"],
         "min_nontrivial": {"quick": 150, "thorough": 3000},
-        "required_classes": ["plan:all", "plan:close", "plan:cancel", "plan:cancel-async", "plan:corrupt", "plan:truncate", "plan:prepared", "plan:prepared-alter", "plan:nested", "bad:table", "bad:column", "bad:not-select", "star=true", "rows<=1000"],
+        "required_classes": ["plan:all", "plan:close", "plan:cancel", "plan:cancel-async", "plan:corrupt", "plan:truncate", "plan:prepared", "plan:prepared-alter", "plan:nested", "plan:prepared-wal", "bad:table", "bad:column", "bad:not-select", "star=true", "rows<=1000"],
         "timeout": {"quick": 500, "thorough": 2400},
         "jobs": [
             job("driver", "c19", ["TestC19Driver"], 200, 3000, 3, 10, race=True),
@@ -403,7 +404,7 @@ CHECKS = {
             "level_text": "Generated plans, oracle = the operation's own sequential result (computed first in the same process; for operations on the plan's fresh file and fresh spellings computed after the concurrent phase, so that lazily filled shared state is filled under concurrency) plus the Go race detector (the check binary is built with -race; any report fails the run). Interleavings are whatever the Go scheduler produces for the generated GOMAXPROCS / yield settings; not enumerated, not reproducible schedule-by-schedule.",
             "level_note": "Each goroutine uses its own native handles (the documented usage); the database/sql pool is shared, as database/sql intends.",
         },
-        "rule": ("plan = GOMAXPROCS in {1,2,4,8,16} x 2-16 workers x 1-8 operations each, operation kinds drawn from 16 kinds, files from 3 fixed ones (5 / 60 / 700 rows; page sizes 512 / 1024 / 4096) and the plan's fresh file (25 rows, keyword case pattern of 24 generated bits). "
+        "rule": ("plan = GOMAXPROCS in {1,2,4,8,16} x 2-16 workers x 1-8 operations each, operation kinds drawn from 16 kinds, files from 3 fixed ones (5 / 60 / 700 rows; page sizes 512 / 1024 / 4096; the second one in journal_mode=PERSIST, i.e. with a non-empty journal next to it) and the plan's fresh file (25 rows, keyword case pattern of 24 generated bits). "
                  "Non-trivial = at least two goroutines use the same file. Distinct = fingerprint of the plan."),
         "assumptions": ["the Go race detector sees the accesses of the interleavings that actually happen"],
         "min_nontrivial": {"quick": 60, "thorough": 1500},
